@@ -16,6 +16,9 @@ def run(ctx):
     E.r_create_once(prog, rep)
     E.r_reason_table(prog, rep)
     E.r_orderonly_guard(prog, rep)
+    E.r_dep_record(prog, rep)
+    E.r_request_flags(prog, rep)
+    E.r_singleuse_bits(prog, rep)
     E.r_epoch_cmp(prog, rep)
     E.r_epoch_writes(prog, rep)
     E.r_scan_guards(prog, rep)
